@@ -1,12 +1,12 @@
 //@ fn canonical.rs normalize_headers
-//@ props C08 C11 C02
+//@ props C08 C11 C02 C17
 //@ ret r
 //@ replace 1 `headers.iter()` => `header_map_entries(headers)`
 //@ replace 1 `key.as_str().to_lowercase()` => `str_to_lowercase(key.as_str())`
 //@ replace 1 `result.entry(key).or_default().push(value);` => `hashmap_entry_or_default_push(&mut result, key, value);`
 //@ spec
     ensures
-        hmap(r@) == map_of(header_pairs(headers.entries)), //# C11 C02 name=headers_by_lowercase_name_in_arrival_order
+        hmap(r@) == map_of(header_pairs(headers.entries)), //# C11 C02 C01 name=headers_by_lowercase_name_in_arrival_order
         forall|k: String| #[trigger] r@.contains_key(k) ==> r@[k]@.len() > 0, //# C08 name=value_lists_nonempty
 //@ before 1 `for (key, value) in headers.iter() {`
     let ghost hp = header_pairs(headers.entries);
